@@ -104,6 +104,8 @@ def line_cases(rng, n):
 
 
 def explore(res, tier, seed, model_ok=True):
+    import gencheck   # differential test of the translated code (Generated/Code.lean) against the original Python
+    gencheck.run(res, 'C12', tier, seed, model_ok)
     rng = random.Random(seed)
     quick = tier == 'quick'
     fams = families(tier)
